@@ -168,6 +168,17 @@ def body(c):
                 c.violation({"kind": pb["kind"], "leg": "client-api", "requests": ops, "step": pb.get("step")},
                             "C20 (client API, real client processes): %s after the request sequence %s: %s" % (pb["kind"], ops[: (pb.get("step") or len(ops)) + 1], pb), {})
     c.extra["sequences_through_client_api"] = len(apih)
+    # the protocol joblib's own users follow on top of the tracker (model): parent dump/register, worker register/release,
+    # clean-up after the call, forced clean-up, atexit, kill; and its sensitivity to the parent's own registration
+    def trcfg(name, **k):
+        pth = os.path.join(common.VERIF, "out", "cfg", "TR_%s.cfg" % name)
+        consts = dict(Files={"f1", "f2"} if c.quick else {"f1", "f2", "f3"}, Workers={1, 2} if c.quick else {1, 2, 3}, ParentRegisters=True); consts.update(k)
+        tlc.write_cfg(pth, constants=consts, spec="Spec", invariants=["InUseExists", "CountsMatch"], properties=["NothingLeft"])
+        return pth
+    c.model_check("TempResources", "TempResources", trcfg("mc"), workers=8, timeout=900)
+    r = c.model_check("TempResources[parent does not register its dump]", "TempResources", trcfg("noreg", ParentRegisters=False), must_hold=False, workers=8, timeout=900)
+    if r.ok: raise tlc.TLCError("TempResources lost its sensitivity: without the parent's registration a file must be deleted while a worker uses it")
+    c.extra["temp_resources_sensitivity"] = "parent does not register its dump -> %s" % (r.violated,)
     # end to end: joblib's own users of the tracker (TemporaryResourcesManager, memmapping reducers) under python3-vt
     lcases = [(base, k, sc, be) for k, (sc, be) in enumerate((sc, be) for be in (("loky", "multiprocessing") if not c.quick else ("loky",))
               for sc in ("plain", "managed_two_calls", "task_fails", "main_killed", "worker_killed", "generator_abandoned", "generator_alive_at_exit")
